@@ -467,6 +467,40 @@ def matrix_elements(rep, rng, tier):
     return out
 
 
+def overlaps(rep, rng, tier):
+    """overlap between kets, bras and operators (Hermitian or not) in every storage: the Hilbert-Schmidt product
+    tr(X+ Y) with states entering as projectors; the amplitude <a|b> between two pure states"""
+    import qutip
+    out = []
+    for _ in range(25 if tier == "quick" else 250):
+        d = [[2], [3], [2, 2], [1, 3], [4]][int(rng.integers(0, 5))]
+        n = int(np.prod(d))
+        k1, k2 = ident(n, 1, rng), ident(n, 1, rng)
+        Mh = ident(n, n, rng)
+        things = {"ket": (qutip.Qobj(k1, dims=[d, [1] * len(d)]), k1 @ k1.conj().T, k1), "ket2": (qutip.Qobj(k2, dims=[d, [1] * len(d)]), k2 @ k2.conj().T, k2),
+                  "bra": (qutip.Qobj(k2.conj().T, dims=[[1] * len(d), d]), k2 @ k2.conj().T, k2),
+                  "herm": (qutip.Qobj(Mh + Mh.conj().T, dims=[d, d]), Mh + Mh.conj().T, None), "oper": (qutip.Qobj(ident(n, n, rng), dims=[d, d]), None, None)}
+        things["oper"] = (things["oper"][0], things["oper"][0].full(), None)
+        for na, (qa, Xa, va) in things.items():
+            for nb, (qb, Xb, vb) in things.items():
+                fa, fb = str(rng.choice(["csr", "dense", "dia"])), str(rng.choice(["csr", "dense", "dia"]))
+                rep.evaluations += 1
+                try:
+                    got = complex(qa.to(fa).overlap(qb.to(fb)))
+                except Exception as e:
+                    out.append((f"overlap-raises:{na}-{nb}", f"overlap of a {na} ({fa}) with a {nb} ({fb}) raises {type(e).__name__}: {e}"[:200], {}))
+                    continue
+                if va is not None and vb is not None:
+                    w = (va.conj().T @ vb)[0, 0]
+                    want = np.conj(w) if (qa.isket and qb.isbra) else w
+                else:
+                    want = np.trace(Xa.conj().T @ Xb)
+                if abs(got - want) > 1e-9 * max(1.0, abs(want)):
+                    out.append((f"overlap:{na}-{nb}", f"{na}.overlap({nb}) ({fa}, {fb}, dims {d}) gives {got}, the Hilbert-Schmidt product of the two objects is {want}", {"dims": d}))
+        rep.count("overlap-block")
+    return out
+
+
 def run(tier, seed, replay):
     rep = core.Report(PID, tier, seed)
     rep.rule = ("dimension specs: random nested lists (flat, extra layer, superoperator pairs, 1-factors, malformed), pairs for "
@@ -508,7 +542,7 @@ def run(tier, seed, replay):
     nbase = len(lines)
     lines += ["C02.dims " + json.dumps({"tidy": False, "spec": s, **({"rep": r} if r else {})}) for s, r in specs]
     seen_g = set()
-    for sig, what, data in matrix_elements(rep, np.random.default_rng([seed, 77]), tier) + groupings(rep, rng, tier):
+    for sig, what, data in matrix_elements(rep, np.random.default_rng([seed, 77]), tier) + overlaps(rep, np.random.default_rng([seed, 78]), tier) + groupings(rep, rng, tier):
         if sig not in seen_g:
             seen_g.add(sig)
             rep.violation(core.Violation("C02:" + sig, what, data))
